@@ -147,6 +147,8 @@ impl<T: Actor> ActorRef<T> {
             payload: Box::new(msg),
             reply_channel: None,     // reply_channel is None for tell
             actor_ref: self.clone(), // Include the actor ref for context
+            #[cfg(feature = "deadlock-detection")]
+            asker: None,
         };
 
         #[cfg(feature = "tracing")]
@@ -264,8 +266,10 @@ impl<T: Actor> ActorRef<T> {
                          or restructure actor dependencies."
                     );
                 }
-                graph.insert(caller.id, callee);
-                Some(crate::WaitForGuard(caller.id))
+                let token =
+                    crate::WAIT_FOR_TOKENS.fetch_add(1, std::sync::atomic::Ordering::Relaxed);
+                graph.insert(caller.id, (callee, token));
+                Some(crate::WaitForGuard(caller.id, token))
             } else {
                 None
             }
@@ -276,6 +280,8 @@ impl<T: Actor> ActorRef<T> {
             payload: Box::new(msg),
             reply_channel: Some(reply_tx),
             actor_ref: self.clone(), // Include the actor ref for context
+            #[cfg(feature = "deadlock-detection")]
+            asker: _guard.as_ref().map(|guard| (guard.0, guard.1)),
         };
 
         #[cfg(feature = "tracing")]
@@ -516,6 +522,8 @@ impl<T: Actor> ActorRef<T> {
             payload: Box::new(msg),
             reply_channel: None,     // reply_channel is None for tell
             actor_ref: self.clone(), // Include the actor ref for context
+            #[cfg(feature = "deadlock-detection")]
+            asker: None,
         };
 
         #[cfg(feature = "tracing")]
@@ -654,6 +662,8 @@ impl<T: Actor> ActorRef<T> {
             payload: Box::new(msg),
             reply_channel: Some(reply_tx),
             actor_ref: self.clone(), // Include the actor ref for context
+            #[cfg(feature = "deadlock-detection")]
+            asker: None,
         };
 
         #[cfg(feature = "tracing")]
